@@ -70,6 +70,7 @@ def run(ctx: Ctx, rep: Report) -> None:
     from ..rules.optrule import rule_nandom
     rule_nandom(ctx, rep, ('bqskit/ir/gates/', 'bqskit/qis/'), 4)
     rule_degen(ctx, rep, gates, 5)
+    embed_space(ctx, rep)
     # order-sensitive folds: tensor factors by qudit, inserts by index
     from ..rules.foldorder import rule_insertord
     from ..rules.foldorder import rule_kronfold
@@ -287,6 +288,68 @@ def _opaque(t: str) -> bool:
     return not re.search(
         r'(?<!self)\.(get_unitary|get_grad)\(', t.replace('self.get_', 'self#'),
     ) and t not in ('self.utry', 'np.array([])')
+
+
+def embed_space(ctx: Ctx, rep: Report) -> None:
+    """EMBEDSPACE: EmbeddedGate copies the entries of the inner gate's matrix
+    (indexed in the inner gate's mixed-radix basis, `self.gate.radixes`) into
+    a matrix of the embedding's own basis (`self.radixes`).  A flat index
+    into the big matrix is a number in the *target* basis: whatever
+    subscripts the destination must be computed from `self.radixes` (its
+    strides), not from the inner gate's radixes alone - the two agree for
+    single-qudit embeddings, which is all the tests embed."""
+    R = 'EMBEDSPACE'
+    f = ctx.fn('bqskit/ir/gates/composed/embedded.py:EmbeddedGate._map_matrix')
+    rep.seen(f.qualname)
+    dest = f.params[2] if len(f.params) > 2 else 'big'
+    # names that flow into a subscript of the destination
+    wanted: set[str] = set()
+    for s in ast.walk(f.node):
+        if isinstance(s, ast.Assign):
+            for t in s.targets:
+                if isinstance(t, ast.Subscript) and norm(t.value) == dest:
+                    wanted |= {x.id for x in ast.walk(t.slice)
+                               if isinstance(x, ast.Name)}
+    srcs: list[ast.AST] = []
+    seen: set[str] = set()
+    todo = list(wanted)
+    while todo:
+        v = todo.pop()
+        if v in seen:
+            continue
+        seen.add(v)
+        for s in ast.walk(f.node):
+            val = None
+            if isinstance(s, ast.Assign) and any(
+                    isinstance(t, ast.Name) and t.id == v
+                    or isinstance(t, ast.Tuple) and any(
+                        isinstance(e, ast.Name) and e.id == v for e in t.elts)
+                    for t in s.targets):
+                val = s.value
+            elif isinstance(s, (ast.For, ast.comprehension)) and any(
+                    isinstance(x, ast.Name) and x.id == v
+                    for x in ast.walk(s.target)):
+                val = s.iter
+            if val is not None:
+                srcs.append(val)
+                todo += [x.id for x in ast.walk(val)
+                         if isinstance(x, ast.Name)]
+    target_radixes = any(
+        isinstance(x, ast.Attribute) and x.attr == 'radixes'
+        and norm(x.value) == 'self' for v in srcs for x in ast.walk(v)
+    )
+    rep.count()
+    rep.check(
+        bool(wanted) and target_radixes, R, 'EmbeddedGate._map_matrix',
+        f.path, f.lineno,
+        f'the index into `{dest}` is computed from self.radixes',
+        f'the flat index that subscripts `{dest}` (through '
+        f'{", ".join(sorted(seen & wanted)) or "?"}) is computed without '
+        'self.radixes, the radixes of the embedding: with the inner gate\'s '
+        'radixes as strides every multi-qudit embedding into larger radixes '
+        'puts the entries on the wrong rows and columns',
+        key='target-strides',
+    )
 
 
 def gradshape(ctx: Ctx, rep: Report, gates: list[ClassInfo]) -> None:
